@@ -199,8 +199,55 @@ fn de_nested() {
     crate::reach_end!();
 }
 
+/// the same with CHANNELS: the enclosing message carries two senders, the nested one a third
+static mut INNER_CH: Option<OpaqueIpcMessage> = None;
+struct RecvNowCh(u8, i64);
+impl Serialize for RecvNowCh {
+    fn serialize<S: serde::Serializer>(&self, _s: S) -> Result<S::Ok, S::Error> {
+        unimplemented!()
+    }
+}
+impl<'de> Deserialize<'de> for RecvNowCh {
+    fn deserialize<D: serde::Deserializer<'de>>(_d: D) -> Result<Self, D::Error> {
+        use serde::de::Error;
+        let m = unsafe { INNER_CH.take() }.unwrap();
+        let (x, s) = m.to::<(u8, IpcSender<u8>)>().map_err(|_| D::Error::custom("inner"))?;
+        let o = obj(ph::sender_fd(ipc::verif_hooks::sender_os(&s)));
+        drop(s);
+        Ok(RecvNowCh(x, o))
+    }
+}
+fn de_nested_channels() {
+    setup(64);
+    let (a0, a1) = raw_pair();
+    let (b0, b1) = raw_pair();
+    let (c0, c1) = raw_pair();
+    let (oa, ob, oc) = (obj(a0), obj(b0), obj(c0));
+    let x: u8 = kani::any();
+    let mut inner = vec![x];
+    inner.extend_from_slice(&0u64.to_le_bytes());
+    unsafe { INNER_CH = Some(ipc::verif_hooks::opaque_message(inner, vec![ph::opaque_from_fd(c0)], vec![])) };
+    let mut outer = Vec::new();
+    outer.extend_from_slice(&0u64.to_le_bytes());
+    outer.extend_from_slice(&1u64.to_le_bytes());
+    let m = ipc::verif_hooks::opaque_message(outer, vec![ph::opaque_from_fd(a0), ph::opaque_from_fd(b0)], vec![]);
+    let r = m.to::<(IpcSender<u8>, RecvNowCh, IpcSender<u8>)>();
+    assert!(r.is_ok(), "C14: a receive nested in a Deserialize impl disturbed the enclosing message's channels");
+    let (a, n, b) = r.unwrap();
+    assert!(n.0 == x && n.1 == oc, "C14: nested message's own channel");
+    assert!(obj(ph::sender_fd(ipc::verif_hooks::sender_os(&a))) == oa && obj(ph::sender_fd(ipc::verif_hooks::sender_os(&b))) == ob,
+        "C14: enclosing message's channels misplaced after a nested receive");
+    drop((a, b));
+    raw_close(a1);
+    raw_close(b1);
+    raw_close(c1);
+    assert!(env::nopen() == 0 && env::nmapped() == 0 && !env::bad_close(), "C11: ledger");
+    crate::reach_end!();
+}
+
 harnesses! {
     #[unwind(14)] fn c14_de_nested() { de_nested() }
+    #[unwind(14)] fn c14_de_nested_channels() { de_nested_channels() }
     // an unconverted channel whose descriptor NUMBER is 0 (a process without stdin) is released too
     #[unwind(19)] fn c16_drop_undecoded_fd0() {
         setup(64);
